@@ -3,6 +3,7 @@
 package raft
 
 import (
+	"fmt"
 	"github.com/lni/dragonboat/v4/internal/verifkit"
 	pb "github.com/lni/dragonboat/v4/raftpb"
 )
@@ -179,8 +180,22 @@ func (v VPeer) Canon(c *verifkit.CanonBuf) {
 	r := v.r()
 	verifkit.ReflectCanon(c, r, vSkip)
 	c.U(v.P.prevState.Term, v.P.prevState.Vote, v.P.prevState.Commit)
+	if r.rl.Enabled() {
+		// the in-memory log rate limiter is state only when it is switched on
+		verifkit.ReflectCanon(c, r.rl, nil)
+	}
 	// cap/len of the in-memory slice matters only through resize decisions
 	c.Bool(r.log.inmem.shrunk)
+}
+
+// RateLimited reports whether raft's in-memory log rate limiter is on and
+// currently limiting (read without side effects: the stored flag).
+func (v VPeer) RateLimitInfo() string {
+	r := v.r()
+	if !r.rl.Enabled() {
+		return ""
+	}
+	return fmt.Sprintf("rl(size=%d tick=%d)", r.rl.Get(), r.rl.GetTick())
 }
 
 // RemoteState returns the replication state name the leader holds for id.
